@@ -1,5 +1,6 @@
 #!/usr/bin/env python3
 """Per-property check: Lean obligations + correspondence with the real code.  Usage: check.py <Cxx> [--tier quick|thorough]"""
+import hashlib
 import json, os, re, subprocess, sys, time, collections
 
 sys.path.insert(0, os.path.dirname(os.path.abspath(__file__)))
@@ -50,6 +51,25 @@ TV_THEOREMS = {
 }
 
 
+def run_audit(mods):
+    """`lake env lean --run Audit.lean <mods>` (axioms of every theorem of the modules); its output is a function of the Lean
+    sources, so it is shared between the checks of one run through a cache keyed by their hash"""
+    key = pipeline.tree_hash([os.path.join(LEAN_DIR, "BitbybitModel"), os.path.join(LEAN_DIR, "Audit.lean"), os.path.join(LEAN_DIR, "lakefile.toml")])
+    cdir = os.path.join(pipeline.WORK_ROOT, "audit-cache")
+    path = os.path.join(cdir, "%s-%s.txt" % (key, hashlib.sha256(" ".join(mods).encode()).hexdigest()[:12]))
+    if os.path.exists(path):
+        with open(path) as f:
+            return 0, f.read()
+    a = subprocess.run(["lake", "env", "lean", "--run", "Audit.lean"] + mods, cwd=LEAN_DIR, stdout=subprocess.PIPE, stderr=subprocess.STDOUT, text=True)
+    if a.returncode == 0:
+        os.makedirs(cdir, exist_ok=True)
+        tmp = path + ".%d.tmp" % os.getpid()
+        with open(tmp, "w") as f:
+            f.write(a.stdout)
+        os.replace(tmp, path)
+    return a.returncode, a.stdout
+
+
 def lean_obligations(prop, thorough=False):
     """returns dict(obligations, discharged, theorems[], problems[], checker_cmd)"""
     mod = "BitbybitModel.Props.%s" % prop
@@ -80,12 +100,12 @@ def lean_obligations(prop, thorough=False):
                     code = code.split("--")[0]
                     if bad_words.search(code):
                         out["problems"].append("forbidden construct in %s:%d: %s" % (f, ln, line.strip()[:80]))
-    a = subprocess.run(["lake", "env", "lean", "--run", "Audit.lean", mod], cwd=LEAN_DIR, stdout=subprocess.PIPE, stderr=subprocess.STDOUT, text=True)
-    if a.returncode != 0:
-        out["problems"].append("audit failed: %s" % a.stdout[-800:])
+    arc, aout = run_audit([mod])
+    if arc != 0:
+        out["problems"].append("audit failed: %s" % aout[-800:])
         return out
     ns = "Bb.%s." % prop
-    for line in a.stdout.splitlines():
+    for line in aout.splitlines():
         m = re.match(r"theorem (\S+) axioms=\[(.*)\]", line)
         if not m:
             continue
@@ -113,9 +133,9 @@ def lean_obligations(prop, thorough=False):
             if b.returncode != 0:
                 out["problems"].append("lake build %s failed: %s" % (pm, b.stdout[-1500:]))
                 return False
-        a2 = subprocess.run(["lake", "env", "lean", "--run", "Audit.lean"] + mods, cwd=LEAN_DIR, stdout=subprocess.PIPE, stderr=subprocess.STDOUT, text=True)
+        _, a2out = run_audit(mods)
         seen = {}
-        for line in a2.stdout.splitlines():
+        for line in a2out.splitlines():
             m = re.match(r"theorem (\S+) axioms=\[(.*)\]", line)
             if m:
                 seen[m.group(1)] = [x.strip() for x in m.group(2).split(",") if x.strip()]
@@ -425,6 +445,8 @@ def evaluate(prop, res):
         cov["nf_equal_bodies"] = nfr.get("equal", 0)
         cov["nf_no_normal_form"] = len(nfr.get("unknown", []))
         cov["nf_kernel_rechecked"] = nfr.get("kernel_checked", 0)
+        if nfr.get("samples") and prop in TV_THEOREMS and len(samples) < 6:
+            samples.append({"normal_form_of_an_emitted_body (declaration item index bits-LSB-first; rK = raw bit K, vK = written-value bit K)": nfr["samples"][:2]})
         for (name, item) in [tuple(x) for x in nfr.get("kernel_failed", [])][:5]:
             add("correspondence", "the kernel does not confirm the driver's answer that an emitted body is equivalent to the model's",
                 {"declaration": name, "item": item})
